@@ -269,4 +269,136 @@ void h_finalize()
   if(blocks == 1) { NV_REACH("finalize.one_block"); }
 }
 
+
+// -------------------------------------------------------------- hash(): bounded glue
+// For a fixed length NV_LEN and split point NV_SP (one unit per padding boundary / chunking),
+// symbolic content: update(msg[0..sp)) ; update(msg[sp..n)) ; finalize  ==  FIPS 180-4 hash, with the
+// compression function abstracted by its contract.  Then the SAME object is reused for a second
+// hash of the same message (reuse after finalize).
+#ifndef NV_LEN
+#define NV_LEN 0
+#endif
+#ifndef NV_SP
+#define NV_SP 0
+#endif
+void h_hash_glue()
+{
+  NV_INPUT_ARR(byte, msg, NV_LEN + 1);
+  const usize sp = NV_SP; // split point (concrete per unit: keeps count, and with it every loop, concrete)
+  // spec: pad the whole message (NV_LEN <= 119: at most two blocks)
+  fips_u8 padded[128];
+  for(int i = 0; i < 128; i++) padded[i] = 0;
+  unsigned full = NV_LEN >= 64 ? 64 : 0; // bytes in complete blocks
+  fips_u8 tail[64];
+  for(unsigned i = 0; i < 64; i++) tail[i] = i < NV_LEN - full ? msg[full + i] : 0;
+  fips_u8 tailpad[128];
+  int tb = fips_pad(tail, NV_LEN, tailpad);
+  int nblocks;
+  if(full)
+  {
+    for(int i = 0; i < 64; i++) padded[i] = msg[i];
+    for(int i = 0; i < 64; i++) padded[64 + i] = tailpad[i];
+    nblocks = 2; // NV_LEN in [64, 119] => tb == 1
+  }
+  else
+  {
+    for(int i = 0; i < 128; i++) padded[i] = tailpad[i];
+    nblocks = tb;
+  }
+  fips_u32 H[8];
+  for(int k = 0; k < 8; k++) H[k] = fips_H0[k];
+  slot_fill_bytes(0, H, padded);
+  for(int k = 0; k < 8; k++) H[k] = H[k] + g_S[0][64 * 8 + k];
+  if(nblocks == 2)
+  {
+    slot_fill_bytes(1, H, padded + 64);
+    for(int k = 0; k < 8; k++) H[k] = H[k] + g_S[1][64 * 8 + k];
+  }
+  else
+    slot_copy(1, 0);
+  for(int k = 0; k < 8; k++)
+  {
+    g_digest[4 * k] = (fips_u8)(H[k] >> 24); g_digest[4 * k + 1] = (fips_u8)(H[k] >> 16);
+    g_digest[4 * k + 2] = (fips_u8)(H[k] >> 8); g_digest[4 * k + 3] = (fips_u8)H[k];
+  }
+  Sha256 s;
+  byte out[32], out2[32];
+  s.update(msg, sp);
+  s.update(msg + sp, NV_LEN - sp);
+  s.finalize(out);
+  NV_CHECK(sha_digest_is(out), "chunked update + finalize == FIPS 180-4 hash of the concatenation");
+  s.update(msg, NV_LEN);
+  s.finalize(out2);
+  NV_CHECK(sha_digest_is(out2), "hasher reused after finalize gives the same digest");
+  NV_REACH("hash_glue.return");
+}
+
+// -------------------------------------------------------------- hmac(key, keySize, message, messageSize, result)
+// update/finalize are replaced by the ABSTRACT-HASH interface contract: update appends its bytes
+// to the message of the object, finalize returns the hash of that message (an uninterpreted
+// 32-byte value) and resets.  The expected call sequence below is RFC 2104 with B = 64.
+int g_step;                 // next expected call (0,1: key hashing; 2..7: inner and outer hash)
+const Sha256* g_self;       // the one hasher object
+const byte* g_key; usize g_keySize; const byte* g_msg; usize g_msgSize;
+byte g_d[3][32];            // abstract digests: H(key), inner hash, outer hash
+
+static byte hmac_k0(usize i) // RFC 2104 step (1)-(2): key hashed when longer than B, zero padded to B
+{
+  if(g_keySize > 64) return i < 32 ? g_d[0][i] : (byte)0;
+  return i < g_keySize ? g_key[i] : (byte)0;
+}
+bool hmac_update_ok(const Sha256* self, const byte* data, usize size)
+{
+  if(g_step != 0 && g_step != 2 && self != g_self) return false;
+  if(g_step == 0) return g_keySize > 64 && data == g_key && size == g_keySize;
+  if(g_step == 2 || g_step == 5)
+  {
+    if(size != 64) return false;
+    for(usize i = 0; i < 64; i++) if(data[i] != (byte)(hmac_k0(i) ^ (g_step == 2 ? 0x36 : 0x5c))) return false;
+    return true;
+  }
+  if(g_step == 3) return data == g_msg && size == g_msgSize;
+  if(g_step == 6)
+  {
+    if(size != 32) return false;
+    for(usize i = 0; i < 32; i++) if(data[i] != g_d[1][i]) return false;
+    return true;
+  }
+  return false;
+}
+bool hmac_finalize_ok(const Sha256* self) { return (g_step == 1 || g_step == 4 || g_step == 7) && self == g_self; }
+bool hmac_digest_written(const byte* digest, int step)
+{
+  int idx = step == 1 ? 0 : step == 4 ? 1 : 2;
+  for(int i = 0; i < 32; i++) if(digest[i] != g_d[idx][i]) return false;
+  return true;
+}
+bool hmac_post(const byte* result)
+{
+  if(g_step != 8) return false;
+  for(int i = 0; i < 32; i++) if(result[i] != g_d[2][i]) return false;
+  return true;
+}
+
+void h_hmac()
+{
+  NV_INPUT(usize, keySize);
+  NV_INPUT(usize, msgSize);
+  NV_ASSUME(keySize <= NV_MAXSZ && msgSize <= NV_MAXSZ);
+  byte* key = (byte*)new char[keySize + 1];
+  byte* msg = (byte*)new char[msgSize + 1];
+  for(int j = 0; j < 3; j++) for(int i = 0; i < 32; i++) g_d[j][i] = nondet_byte();
+  g_key = key; g_keySize = keySize; g_msg = msg; g_msgSize = msgSize;
+  g_step = keySize > 64 ? 0 : 2;
+  g_self = 0;
+  byte result[32];
+  Sha256::hmac(key, keySize, msg, msgSize, result);
+  NV_CHECK(hmac_post(result), "hmac == RFC 2104: H((K0 ^ opad) || H((K0 ^ ipad) || message)) over the abstract hash");
+  if(keySize > 64) { NV_REACH("hmac.long_key"); }
+  if(keySize == 64) { NV_REACH("hmac.block_key"); }
+  if(keySize < 64) { NV_REACH("hmac.short_key"); }
+  delete[] (char*)key;
+  delete[] (char*)msg;
+}
+
 } // extern "C"
